@@ -48,6 +48,7 @@ pub fn record(family: &str, args: &[String]) -> i32 {
     std::panic::set_hook(Box::new(|_| {}));
     match family {
         "lex" => lexrec::record(args),
+        "lawtable" => table::record_lawtable(args),
         "interp" => interprec::record(args),
         "cli" => cli::record(args),
         _ => {
